@@ -18,6 +18,9 @@ import re
 import subprocess
 import sys
 import time
+import warnings
+
+warnings.filterwarnings("ignore")
 
 HERE = os.path.dirname(os.path.abspath(__file__))
 VERIF = os.path.dirname(HERE)
